@@ -26,6 +26,7 @@ import (
 const (
 	groupD = 1_000_000
 	groupR = 2_000_000
+	groupS = 3_000_000
 )
 
 func dmarcGroup(t *testing.T, r *rep.Reporter) {
